@@ -107,7 +107,8 @@ def gen_cases(ctx):
     # the same file name read, rewritten with its convertible columns in their other units, and read again (nothing may be remembered per file name)
     scripted = [dict(seed=int(rng.integers(0, 2**31)), fits=False, script=sc) for sc in
                 (["write", "slice", "write_ow_units", "slice", "idx"], ["write", "idx", "read", "write_ow_units", "idx", "slice", "random"],
-                 ["write", "random", "write_ow_units", "random", "write_ow_units", "slice"])]
+                 ["write", "random", "write_ow_units", "random", "write_ow_units", "slice"],
+                 ["write", "write_ow_app", "read", "append", "read"], ["write", "append", "write_ow_app", "idx", "read", "write_ow_app", "read"])]
     return load_corpus("C12") + scripted + [dict(seed=int(rng.integers(0, 2**31)), fits=bool(k % 7 == 6)) for k in range(n_seq)]
 
 
@@ -173,7 +174,7 @@ def run_sequence(ctx, case):
             kind = "write_ow"
         else:
             scripted_spec = None
-        if kind in ("write", "write_ow", "append", "append_bad"):
+        if kind in ("write", "write_ow", "append", "append_bad", "write_ow_app"):
             if scripted_spec is not None:
                 spec, why = scripted_spec, None
             elif kind == "append_bad" and model is not None:
@@ -183,8 +184,9 @@ def run_sequence(ctx, case):
             elif kind == "append" and model is not None:
                 spec, why = mk_spec(rng, cols=model[0], units=model[1], meta=model[2], nrows=int(rng.integers(1, 12))), None
             else:
-                spec, why = (mk_spec(rng) if kind == "write_ow" else base if model is None else mk_spec(rng)), None
-            ow, app = kind == "write_ow", kind in ("append", "append_bad")
+                spec, why = (mk_spec(rng) if kind in ("write_ow", "write_ow_app") else base if model is None else mk_spec(rng)), None
+            # write_ow_app: overwrite=True together with append=True replaces the table
+            ow, app = kind in ("write_ow", "write_ow_app"), kind in ("append", "append_bad", "write_ow_app")
             before = sha(fn)
             s = build_samples(spec)
             try:
@@ -200,7 +202,7 @@ def run_sequence(ctx, case):
                 problems.append(f"op {k} {kind}: unexpected exception {res}")
                 break
             # python mirror
-            if model is None or (ow and not app):
+            if model is None or ow:
                 exp = "WOk"
                 new_model = (spec["cols"], spec["units"], spec["meta"], [list(r) for r in spec["rows"]])
             elif app:
